@@ -79,6 +79,20 @@ Definition as_event (s : sx) : option wevent :=
   end.
 
 (* (conc_footprint_check ((key (old)|() (new)|() pattern-code) ...)) -> (ok ((index key))|() (#publish #same #change #remove)) *)
+Definition h_footprint_check_vol (a : list sx) : sx :=
+  match a with
+  | [evs; vol] =>
+    match as_list_of as_event evs, as_list_of as_N vol with
+    | Some evs, Some vol =>
+      let isvol := fun k => existsb (N.eqb k) vol in
+      SL [sbool (footprint_ok_vol isvol evs);
+          sopt (fun nk => SL [sN (fst nk); sN (snd nk)]) (first_bad_ev 0 [] (List.filter (fun e => negb (isvol (e_key e))) evs));
+          sN (N.of_nat (List.length (List.filter (fun e => isvol (e_key e)) evs)))]
+    | _, _ => err "args"
+    end
+  | _ => err "arity"
+  end.
+
 Definition h_footprint_check (a : list sx) : sx :=
   match a with
   | [evs] =>
@@ -95,4 +109,5 @@ Definition h_footprint_check (a : list sx) : sx :=
 
 Definition table : list (string * handler) :=
   [("conc_trace_check", h_trace_check); ("conc_tree_writes", h_tree_writes);
-   ("conc_rebuild_run", h_rebuild_run); ("conc_footprint_check", h_footprint_check)].
+   ("conc_rebuild_run", h_rebuild_run); ("conc_footprint_check", h_footprint_check);
+   ("conc_footprint_check_vol", h_footprint_check_vol)].
